@@ -212,6 +212,9 @@ func runCheck(specPath, tier string) int {
 
 	ev := &Evidence{PropertyID: spec.Property, Tier: tier, Seed: seed, Level: "model_checking"}
 	evPath := filepath.Join(verifDir, "evidence", spec.Property+".json")
+	if d := os.Getenv("VERIF_EVIDENCE_DIR"); d != "" {
+		evPath = filepath.Join(d, spec.Property+".json")
+	}
 	os.MkdirAll(filepath.Dir(evPath), 0o755)
 	fail := func(code int, why string) int {
 		ev.WallS = time.Since(t0).Seconds()
